@@ -32,6 +32,10 @@ A program is plain data:
           'wraps': [fname, ...]}
   param = {'name', 'annot': None|'ir'|'tr'|'ar'|'kr',
            'default': ('missing',) | ('none',) | ('num', v) | ('tuple', [v..])}
+  A func with 'fails': True has a parameter carrying an invalid annotation
+  ('annot_src'); SynthDef.wrap rejects it as a whole (ValueError, caught by
+  the calling graph function), so it contributes NOTHING to the layout; its
+  optional 'fallback' func is wrapped instead and is an ordinary function.
 """
 
 import struct
@@ -61,6 +65,13 @@ def invocation_order(prog):
     def visit(fname):
         out.append(fname)
         for w in prog['funcs'][fname]['wraps']:
+            c = prog['funcs'][w]
+            if c.get('fails'):
+                # a helper that SynthDef.wrap rejects (invalid annotation)
+                # declares nothing; the caller may then wrap a fallback
+                if c.get('fallback'):
+                    visit(c['fallback'])
+                continue
             visit(w)
     visit(prog['top'])
     return out
